@@ -31,31 +31,36 @@ TOPMARK = 999999                       # the marker at the top of every generate
 
 PRELUDE = '''from jug import TaskGenerator, barrier, bvalue, value
 from jug.compound import CompoundTaskGenerator
-from %s import mark, mark_bar, mark_bv
+from %s import mark, mark_bar, mark_bv, maybe_fail
 
 
 @TaskGenerator
 def f(x, c):
+    maybe_fail('f', x, c)
     return (2 * x + c + 1) %% 3
 
 
 @TaskGenerator
 def g(x, y):
+    maybe_fail('g', x, y)
     return (x + 2 * y) %% 3
 
 
 @TaskGenerator
 def pair(x, y):
+    maybe_fail('pair', x, y)
     return (x, y)
 
 
 @TaskGenerator
 def tsum(p):
+    maybe_fail('tsum', p)
     return (p[0] + 2 * p[1] + 1) %% 3
 
 
 @TaskGenerator
 def pfst(p):
+    maybe_fail('pfst', p)
     return p[0]
 
 ''' % MARKMOD
@@ -64,6 +69,17 @@ MARKS_SRC = '''"""marker side effects of generated jugfiles (C14/C18 harness)"""
 import jug.task
 
 LOG = []          # (n, kind, detail)
+FAIL = {}         # (function name, argument values) -> -1: raises every time, k > 0: raises the next k times
+RAISED = []       # (function name, argument values) of every injected failure that was raised
+
+
+def maybe_fail(name, *args):
+    k = FAIL.get((name, args), 0)
+    if k:
+        if k > 0:
+            FAIL[(name, args)] = k - 1
+        RAISED.append((name, args))
+        raise ValueError('injected failure in %s%r' % (name, args))
 
 
 def mark(n):
@@ -379,6 +395,283 @@ def generate(rng, **kw):
         if not has_mixed(prog):
             return prog
     raise HarnessError('could not generate a well-typed program')
+
+
+# ------------------------------------------------------------------------------------ flat form of a program
+def flatten(node):
+    """the same program as a list of statements (continuations 'k' unrolled; builders and the branches of a bvalue are
+    lists again): nesting depth = nesting of builders / branches, not the number of statements.  Used for replay files
+    (JSON cannot hold a few hundred levels of nesting) and by the generators of long programs."""
+    out = []
+    while True:
+        op = node['op']
+        if op == 'ret':
+            out.append(dict(node))
+            return out
+        if op == 'bvalue':
+            st = dict((k, v) for k, v in node.items() if k != 'branches')
+            st['branches'] = dict((x, flatten(b)) for x, b in node['branches'].items())
+            out.append(st)
+            return out
+        st = dict((k, v) for k, v in node.items() if k not in ('k', 'body'))
+        if op == 'compound':
+            st['body'] = flatten(node['body'])
+        out.append(st)
+        node = node['k']
+
+
+def unflatten(stmts):
+    last = dict(stmts[-1])
+    if last['op'] == 'bvalue':
+        last['branches'] = dict((x, unflatten(b)) for x, b in last['branches'].items())
+    elif last['op'] != 'ret':
+        raise HarnessError('a statement list must end in ret or bvalue')
+    node = last
+    for st in reversed(stmts[:-1]):
+        st = dict(st)
+        if st['op'] == 'compound':
+            st['body'] = unflatten(st['body'])
+        st['k'] = node
+        node = st
+    return node
+
+
+def nstatements(node):
+    n = 0
+    for st in flatten(node):
+        n += 1
+        if st['op'] == 'bvalue':
+            n += sum(nstatements(unflatten(b)) for b in st['branches'].values())
+        elif st['op'] == 'compound':
+            n += nstatements(unflatten(st['body']))
+    return n
+
+
+# ------------------------------------------------------------------------------------ long programs
+class Deep:
+    """Jugfiles with long dependency chains: when such a file is loaded under a recursion limit smaller than ~4 frames
+    per link, hashing the end of a chain raises RecursionError and barrier() answers through its explicit-stack
+    fallback (jug/barrier.py:_can_load_limit_recursion).  Several chains (independent, or linked to one another),
+    sinks of different kinds before one barrier, further chains after it that continue the earlier ones, a second
+    barrier, a builder with a chain and a barrier inside.
+    What jug supports is respected: the argument of bvalue() and the arguments of a compound are tasks whose hash is
+    cached already (defined before a barrier that has been passed) or which are only a few links away from such
+    tasks - hashing anything deeper raises RecursionError in jug itself (notes/strengthen_loader.txt, finding F1)."""
+    NEAR = 6                               # links a bvalue / compound argument may be away from a cached hash
+
+    def __init__(self, rng, chain=(55, 90), max_tasks=420):
+        self.rng, self.chain, self.max_tasks = rng, chain, max_tasks
+        self.n = 0
+        self.ntasks = 0
+
+    def fresh(self, p):
+        self.n += 1
+        return '%s%d' % (p, self.n)
+
+    def mark_n(self):
+        self.n += 1
+        return self.n
+
+    def d(self, out, env, fn, args, dist):
+        var = self.fresh('t')
+        out.append({'op': 'def', 'var': var, 'fn': fn, 'args': args})
+        env.append((var, FN_SIG[fn][1], dist))
+        self.ntasks += 1
+        return var
+
+    @staticmethod
+    def dist_of(env, var):
+        for v, _, dd in env:
+            if v == var:
+                return dd
+        raise KeyError(var)
+
+    def chain_from(self, out, env, start, others):
+        """a chain of int tasks; start: a var or None; others: int vars of other chains that may be linked in"""
+        rng = self.rng
+        lo, hi = self.chain
+        L = rng.randint(lo, hi)
+        if start is None:
+            cur = self.d(out, env, 'f', [{'c': rng.randrange(M)}, {'c': rng.randrange(M)}], 1)
+        else:
+            cur = start
+        for _ in range(L):
+            dist = self.dist_of(env, cur) + 1
+            r = rng.random()
+            if r < 0.70:
+                cur = self.d(out, env, 'f', [{'t': cur}, {'c': rng.randrange(M)}], dist)
+            elif r < 0.85:
+                cur = self.d(out, env, 'g', [{'t': cur}, {'t': cur}], dist)
+            elif r < 0.93 and others:
+                o = rng.choice(others)
+                cur = self.d(out, env, 'g', [{'t': cur}, {'t': o}], max(dist, self.dist_of(env, o) + 1))
+            else:
+                cur = self.d(out, env, 'g', [{'t': cur}, {'c': rng.randrange(M)}], dist)
+        # how the chain ends: as it is, or in a sink of another kind
+        r = rng.random()
+        dist = self.dist_of(env, cur) + 1
+        if r < 0.3:
+            cur = self.d(out, env, 'tsum', [{'tup': [{'t': cur}, {'c': rng.randrange(M)}]}], dist)
+        elif r < 0.45:
+            p = self.d(out, env, 'pair', [{'t': cur}, {'t': cur}], dist)
+            cur = self.d(out, env, 'pfst', [{'t': p}], dist + 1)
+        return cur
+
+    def shallow(self, out, env, ends):
+        """a few short tasks (sinks of their own, or hanging off the ends of chains)"""
+        rng = self.rng
+        for _ in range(rng.choice([0, 1, 1, 2])):
+            if ends and rng.random() < 0.5:
+                e = rng.choice(ends)
+                self.d(out, env, 'f', [{'t': e}, {'c': rng.randrange(M)}], self.dist_of(env, e) + 1)
+            else:
+                self.d(out, env, 'f', [{'c': rng.randrange(M)}, {'c': rng.randrange(M)}], 1)
+
+    def passed_barrier(self, env):
+        # every task defined so far has its hash cached once barrier() returned
+        env[:] = [(v, ty, 0) for (v, ty, _) in env]
+
+    def segment(self, out, env, nchains, starts):
+        rng = self.rng
+        ends = []
+        for _ in range(nchains):
+            if self.ntasks + self.chain[1] + 8 > self.max_tasks:
+                break
+            start = rng.choice(starts) if (starts and rng.random() < 0.6) else None
+            ends.append(self.chain_from(out, env, start, [e for e in ends if rng.random() < 0.5]))
+            if rng.random() < 0.3:
+                self.shallow(out, env, ends)
+        if rng.random() < 0.6:
+            self.shallow(out, env, ends)
+        if not ends:
+            ends.append(self.d(out, env, 'f', [{'c': rng.randrange(M)}, {'c': rng.randrange(M)}], 1))
+        return ends
+
+    def near(self, env, ty='int'):
+        return [v for (v, t, dd) in env if t == ty and dd <= self.NEAR]
+
+    def program(self):
+        rng = self.rng
+        out, env = [], []
+        ends = self.segment(out, env, rng.choice([1, 2, 2, 2, 3, 3]), [])
+        out.append({'op': 'barrier'})
+        out.append({'op': 'mark', 'n': self.mark_n(), 'kind': 'bar'})
+        self.passed_barrier(env)
+        style = rng.choice(['one', 'two', 'two', 'bvalue', 'bvalue', 'compound', 'compound'])
+        if style == 'one':
+            self.shallow(out, env, ends)
+            out.append({'op': 'ret', 'arg': {'c': 0}})
+            return unflatten(out)
+        if style == 'bvalue':
+            # v = bvalue(end of a chain); the value decides which chain is continued
+            tv = rng.choice(ends)
+            var = self.fresh('v')
+            branches = {}
+            for x in range(M):
+                b, benv = [], list(env)
+                b.append({'op': 'mark', 'n': self.mark_n(), 'kind': 'bv', 'ref': {'t': tv}, 'vvar': var})
+                if x == 0 or self.ntasks + self.chain[1] + 8 > self.max_tasks:
+                    self.d(b, benv, 'f', [{'t': tv}, {'v': var, 'val': x}], 1)
+                    b.append({'op': 'ret', 'arg': {'c': 0}})
+                else:
+                    e2 = self.segment(b, benv, 1, ends)
+                    b.append({'op': 'barrier'})
+                    b.append({'op': 'mark', 'n': self.mark_n(), 'kind': 'bar'})
+                    self.d(b, benv, 'f', [{'t': e2[-1]}, {'v': var, 'val': x}], 1)
+                    b.append({'op': 'ret', 'arg': {'c': 0}})
+                branches[str(x)] = b
+            out.append({'op': 'bvalue', 'var': var, 'arg': {'t': tv}, 'plain_value': rng.random() < 0.5, 'branches': branches})
+            return unflatten(out)
+        if style == 'compound':
+            # a builder with a chain and a barrier inside, called on the end of an earlier chain
+            par = rng.choice(ends)
+            name, var = self.fresh('comp'), self.fresh('c')
+            body, benv = [], [(par, 'int', 0)]
+            body.append({'op': 'mark', 'n': self.mark_n(), 'kind': 'plain'})
+            e = self.chain_from(body, benv, par, [])
+            inner_barrier = rng.random() < 0.7
+            if inner_barrier:
+                body.append({'op': 'barrier'})
+                body.append({'op': 'mark', 'n': self.mark_n(), 'kind': 'bar'})
+                e = self.d(body, benv, 'f', [{'t': e}, {'c': rng.randrange(M)}], 1)
+                body.append({'op': 'ret', 'arg': {'t': e}})
+            else:
+                # the builder returns the end of its chain: the tasks after it see an unhashed chain through nothing
+                # (the compound's hash is fixed), the outer barrier below meets the inner chain
+                body.append({'op': 'ret', 'arg': {'t': e}})
+            out.append({'op': 'compound', 'var': var, 'name': name, 'params': [par], 'body': body})
+            env.append((var, 'int', 0))
+            self.d(out, env, 'f', [{'t': var}, {'c': rng.randrange(M)}], 1)
+            ends2 = self.segment(out, env, 1, ends + [var]) if self.ntasks + self.chain[1] + 8 <= self.max_tasks else []
+            out.append({'op': 'barrier'})
+            out.append({'op': 'mark', 'n': self.mark_n(), 'kind': 'bar'})
+            self.passed_barrier(env)
+            self.shallow(out, env, ends2)
+            out.append({'op': 'ret', 'arg': {'c': 0}})
+            return unflatten(out)
+        # two: further chains that continue the earlier ones, a second barrier
+        ends2 = self.segment(out, env, rng.choice([1, 2, 2]), ends)
+        out.append({'op': 'barrier'})
+        out.append({'op': 'mark', 'n': self.mark_n(), 'kind': 'bar'})
+        self.passed_barrier(env)
+        if rng.random() < 0.5:
+            tv = rng.choice(ends2)
+            var = self.fresh('v')
+            b = [{'op': 'mark', 'n': self.mark_n(), 'kind': 'bv', 'ref': {'t': tv}, 'vvar': var}]
+            self.shallow(b, env, ends2)
+            b.append({'op': 'ret', 'arg': {'c': 0}})
+            out.append({'op': 'bvalue', 'var': var, 'arg': {'t': tv}, 'plain_value': False, 'branches': {'*': b}})
+        else:
+            self.shallow(out, env, ends2)
+            out.append({'op': 'ret', 'arg': {'c': 0}})
+        return unflatten(out)
+
+
+def generate_deep(rng, **kw):
+    return Deep(rng, **kw).program()
+
+
+def generate_iter(rng, rounds=(5, 8)):
+    """an iterative computation: many consecutive barrier / bvalue phases, each running the same task function
+    (x = step(x); v = bvalue(x) ...), the shape on which the reload loop of `jug execute` has to count progress"""
+    g = Gen(rng)
+    fn = rng.choice(['f', 'f', 'g'])
+    out = []
+    prev = None
+    n = rng.randint(*rounds)
+    for i in range(n):
+        var = g.fresh('t')
+        if fn == 'f':
+            a0 = prev if prev is not None else {'c': rng.randrange(M)}
+            args = [a0, {'c': rng.randrange(M)}]
+        else:
+            a0 = prev if prev is not None else {'c': rng.randrange(M)}
+            args = [a0, rng.choice([a0, {'c': rng.randrange(M)}])]
+        out.append({'op': 'def', 'var': var, 'fn': fn, 'args': args})
+        prev = {'t': var}
+        if i == n - 1 and rng.random() < 0.5:
+            break
+        if rng.random() < 0.3:
+            out.append({'op': 'barrier'})
+            out.append({'op': 'mark', 'n': g.fresh_mark(), 'kind': 'bar'})
+        else:
+            v = g.fresh('v')
+            # the continuation goes on as one list: the value is not inspected ('*'), the next step uses the task
+            rest = [{'op': 'mark', 'n': g.fresh_mark(), 'kind': 'bv', 'ref': {'t': var}, 'vvar': v}]
+            out.append({'op': 'bvalue', 'var': v, 'arg': {'t': var}, 'plain_value': False, 'branches': {'*': rest}})
+            out = _Tail(out, rest)
+    out.append({'op': 'ret', 'arg': {'c': 0}})
+    return unflatten(out.root if isinstance(out, _Tail) else out)
+
+
+class _Tail:
+    """statement list whose appends go to the innermost open continuation"""
+    def __init__(self, outer, inner):
+        self.root = outer.root if isinstance(outer, _Tail) else outer
+        self.inner = inner
+
+    def append(self, st):
+        self.inner.append(st)
 
 
 # ------------------------------------------------------------------------------------ rendering to Python
@@ -716,7 +1009,35 @@ def fill_store(store, items):
         store.dump(v, h.encode('ascii'))
 
 
-def real_init(sc, store):
+HARNESS_RECLIMIT = 30000                # the harness' own recursive walks over programs of a few hundred statements
+if sys.getrecursionlimit() < HARNESS_RECLIMIT:
+    sys.setrecursionlimit(HARNESS_RECLIMIT)
+
+
+def stack_depth():
+    f, n = sys._getframe(), 0
+    while f is not None:
+        n += 1
+        f = f.f_back
+    return n
+
+
+class low_recursion:
+    """run the real code with only `slack` Python frames left (None: no change), as a user's interpreter has
+    sys.getrecursionlimit() = 1000 and chains of a few hundred tasks"""
+    def __init__(self, slack):
+        self.slack = slack
+
+    def __enter__(self):
+        self.old = sys.getrecursionlimit()
+        if self.slack is not None:
+            sys.setrecursionlimit(stack_depth() + self.slack)
+
+    def __exit__(self, *a):
+        sys.setrecursionlimit(self.old)
+
+
+def real_init(sc, store, slack=None):
     """jug.init on the generated jugfile against `store`, as `jug execute` does it before each phase.
     Returns dict(tasks=[hash...], names=[...], hasbarrier=bool, marks=[(n, kind, detail)...], space)"""
     del jug.task.alltasks[:]
@@ -724,7 +1045,8 @@ def real_init(sc, store):
     path = list(sys.path)
     try:
         with jugrun.quiet():
-            st, space = jug.jug.init(sc.jugfile, store)
+            with low_recursion(slack):
+                st, space = jug.jug.init(sc.jugfile, store)
     finally:
         sys.path[:] = path
     tasks = list(jug.task.alltasks)
@@ -744,34 +1066,49 @@ def real_check(store, space):
     raise HarnessError('jug check did not exit')
 
 
-def exec_options(sc, jugdir_str='dict_store'):
-    return jug.options.parse(['execute', sc.jugfile, '--jugdir', jugdir_str, '--nr-wait-cycles', '1',
-                              '--wait-cycle-time', '0', '--will-cite'])
+def exec_argv(sc, jugdir_str, nwc=1, extra=()):
+    return ['execute', sc.jugfile, '--jugdir', jugdir_str, '--nr-wait-cycles', str(nwc),
+            '--wait-cycle-time', '0', '--will-cite'] + list(extra)
 
 
-def real_execute(sc, store_or_path, via_main=False):
-    """`jug execute` in-process to its end.  Returns (exit code, marker log of all loads)."""
+def exec_options(sc, jugdir_str='dict_store', nwc=1, extra=()):
+    return jug.options.parse(exec_argv(sc, jugdir_str, nwc, extra))
+
+
+def real_execute(sc, store_or_path, via_main=False, nwc=1, extra=(), slack=None, fail=None):
+    """`jug execute` in-process to its end.  nwc: --nr-wait-cycles; extra: further options (--keep-going ...);
+    fail: {(function name, argument values): -1 | k} failures injected into the task functions.
+    Returns (exit code, marker log of all loads, output); the injected failures raised are in sc.marks.RAISED;
+    an exception that leaves `jug execute` is returned as exit code ('raised', type name, message)."""
     import signal
     from jug.hooks.register import reset_all_hooks
     from jug.subcommands import cmdapi
     del jug.task.alltasks[:]
     del sc.marks.LOG[:]
+    del sc.marks.RAISED[:]
+    sc.marks.FAIL.clear()
+    sc.marks.FAIL.update(fail or {})
     argv, path = list(sys.argv), list(sys.path)
     term = signal.getsignal(signal.SIGTERM)
     code = 0
     try:
         with jugrun.quiet() as (out, err):
             try:
-                if via_main:
-                    jug.jug.main(['jug', 'execute', sc.jugfile, '--jugdir', store_or_path, '--nr-wait-cycles', '1',
-                                  '--wait-cycle-time', '0', '--will-cite'])
-                else:
-                    opts = exec_options(sc)
-                    opts.jugdir = store_or_path
-                    cmdapi.run('execute', options=opts, store=None, jugspace=None)
+                with low_recursion(slack):
+                    if via_main:
+                        jug.jug.main(['jug'] + exec_argv(sc, store_or_path, nwc, extra))
+                    else:
+                        opts = exec_options(sc, nwc=nwc, extra=extra)
+                        opts.jugdir = store_or_path
+                        cmdapi.run('execute', options=opts, store=None, jugspace=None)
             except SystemExit as e:
                 code = 0 if e.code in (None, 0) else e.code
+            except ValueError as e:
+                if not fail or 'injected failure' not in str(e):
+                    raise
+                code = ('raised', type(e).__name__, str(e))
     finally:
+        sc.marks.FAIL.clear()
         sys.argv[:] = argv
         sys.path[:] = path
         try:
@@ -780,6 +1117,29 @@ def real_execute(sc, store_or_path, via_main=False):
             pass
         reset_all_hooks()
     return code, list(sc.marks.LOG), out.getvalue() + err.getvalue()
+
+
+# ------------------------------------------------------------------------------------ locks left by other workers
+def set_locks(store, held=(), failed=()):
+    """what another worker leaves behind: a lock it holds (or held when it was killed), a lock marked failed
+    (--keep-failed).  Taken through lock objects of their own, as another process would."""
+    for h in list(held) + list(failed):
+        lk = store.getlock(h.encode('ascii'))
+        if not lk.get():
+            raise HarnessError('could not take the lock of %s' % h)
+    for h in failed:
+        lk = store.getlock(h.encode('ascii'))
+        if not lk.fail():
+            raise HarnessError('could not mark the lock of %s failed' % h)
+
+
+def list_locks(store):
+    """(sorted held, sorted failed) hashes"""
+    held, failed = [], []
+    for k in store.listlocks():
+        lk = store.getlock(k)
+        (failed if lk.is_failed() else held).append(hx(k))
+    return sorted(held), sorted(failed)
 
 
 def store_items(store):
